@@ -55,14 +55,27 @@ def raw_expr(d):
     """Coq expression : option (list (option ring))  -- None when the code raises before building polygons"""
     s = d.spec
     if d.family == 'cf1d':
-        if s['bounds']:
-            return f"(Some (cf1d_raw {qpairs(s['bounds']['lon'])} {qpairs(s['bounds']['lat'])}))"
-        return (f"(match cf1d_synth {qlist(s['lon'])}, cf1d_synth {qlist(s['lat'])} with "
-                f"| Some xb, Some yb => Some (cf1d_raw xb yb) | _, _ => None end)")
+        # the model decides from the stored layout whether a bounds variable is used (dimension ids: y = 0, x = 1, other = 2)
+        def stored1(cname, cdim_id):
+            b = d.ds[cname].attrs.get('bounds')
+            if b is None or b not in d.ds.variables:
+                return 'NoBounds1'
+            a = d.ds[b]
+            ids = [cdim_id if x == d.ds[cname].dims[0] else 2 for x in a.dims]
+            vals = a.values if a.ndim == 2 and a.shape[1] == 2 else numpy.zeros((0, 2))
+            return f"(Stored1 {to_coq(ids)} {int(a.shape[-1])} {qpairs(vals)})"
+        return (f"(cf1d_polys 0 1 {qlist(s['lon'])} {qlist(s['lat'])} {stored1(s['lonname'], 1)} {stored1(s['latname'], 0)})")
     if d.family in ('cf2d', 'shoc_simple'):
-        if s['bounds']:
-            return f"(Some (cf2d_given_raw {s['ny']} {s['nx']} {arr3(s['lon_b'])} {arr3(s['lat_b'])}))"
-        return f"(Some (cf2d_synth_raw {s['ny']} {s['nx']} {arr2(s['lon'])} {arr2(s['lat'])}))"
+        def stored2(cname):
+            b = d.ds[cname].attrs.get('bounds')
+            if b is None or b not in d.ds.variables:
+                return 'NoBounds'
+            a = d.ds[b]
+            ids = [0 if x == s['ydim'] else 1 if x == s['xdim'] else 2 for x in a.dims]
+            vals = a.values if a.ndim == 3 else numpy.zeros((0, 0, 0))
+            return f"(Stored {to_coq(ids)} {int(a.shape[-1])} {arr3(vals)})"
+        return (f"(Some (cf2d_raw {s['ny']} {s['nx']} 0 1 {arr2(s['lon'])} {arr2(s['lat'])} "
+                f"{stored2(s['lonname'])} {stored2(s['latname'])}))")
     if d.family == 'shoc_standard':
         return f"(Some (arakawa_raw {s['nj']} {s['ni']} {arr2(s['xg'])} {arr2(s['yg'])}))"
     if d.family == 'ugrid':
